@@ -1,5 +1,6 @@
 import PexpectModel.ExOutcome
 import PexpectModel.Regex
+import PexpectModel.ReadApi
 import PexpectModel.Drv.Common
 /-! driver for the Expecter model: one history per line -/
 namespace Drv.ExD
@@ -86,6 +87,27 @@ def runLine (ops : List String) (evs : List (Ev Nat)) : Option (List String) :=
               let (f, st', evs') := expectList pats W st evs
               go rest st' evs' (showFinal f st' :: acc)
           | _, _ => none
+      | ["n", n] =>       -- spawn.read(n), n > 0
+          match n.toNat? with
+          | some n =>
+              let (f, st', evs') := expectList [.re (Ra.dotN n), .eof] 0 st evs
+              let v := match (Ra.readN n st evs).1 with | .value v => s!" v={encList v}" | .raised _ => " v=!"
+              go rest st' evs' ((showFinal f st' ++ v) :: acc)
+          | none => none
+      | ["a", w] =>       -- spawn.read() / read(-1)
+          match w.toNat? with
+          | some W =>
+              let (f, st', evs') := expectList [.eof] W st evs
+              let v := match (Ra.readAll W st evs).1 with | .value v => s!" v={encList v}" | .raised _ => " v=!"
+              go rest st' evs' ((showFinal f st' ++ v) :: acc)
+          | none => none
+      | ["l", w] =>       -- spawn.readline()
+          match w.toNat? with
+          | some W =>
+              let (f, st', evs') := expectList [.re (Ra.litRe [13, 10]), .eof] W st evs
+              let v := match (Ra.readline [13, 10] W st evs).1 with | .value v => s!" v={encList v}" | .raised _ => " v=!"
+              go rest st' evs' ((showFinal f st' ++ v) :: acc)
+          | none => none
       | ["b", h] => go rest (setBuffer (decList h)) evs (s!"set" :: acc)
       | _ => none
   go ops { B := [], S := [] } evs []
